@@ -254,8 +254,10 @@ def write_evidence(prop, tier, seed, results, ex, per_run, n_obl, n_dis, n_b, n_
         exit_code=rc,
     )
     ev = dict(property_id=prop, tier=tier, seed=seed, level=level, coverage=cov, assumptions=sorted(assumptions), wall_s=round(wall, 2), violations=nviol)
-    os.makedirs(os.path.join(VERIF, 'evidence'), exist_ok=True)
-    json.dump(ev, open(os.path.join(VERIF, 'evidence', prop + '.json'), 'w'), indent=1)
+    # evidence describes /repo itself; runs against a scratch copy (VERIF_REPO, used for seeded changes) must not overwrite it
+    evdir = os.path.join(VERIF, 'evidence') if os.path.realpath(runner.REPO) == '/repo' else os.path.join(VERIF, '.work', 'evidence_scratch')
+    os.makedirs(evdir, exist_ok=True)
+    json.dump(ev, open(os.path.join(evdir, prop + '.json'), 'w'), indent=1)
 
 
 if __name__ == '__main__':
